@@ -658,7 +658,9 @@ impl<'c> World<'c> {
                     }
                 }
                 End::ServerBroadcastOverBudget | End::ServerBroadcastExceptOverBudget | End::ServerBroadcastExceptOverBudgetSilentPeer => {
-                    let big = vec![0x5Au8; 5 * 1024 * 1024 + 1];
+                    // one shared buffer for all sessions of the process (cloning Bytes is a reference count)
+                    static BIG: std::sync::OnceLock<bytes::Bytes> = std::sync::OnceLock::new();
+                    let big = BIG.get_or_init(|| bytes::Bytes::from(vec![0x5Au8; 5 * 1024 * 1024 + 1])).clone();
                     let rs = &mut self.rs;
                     let except = self.clients[1].id;
                     let all = self.cfg.end == End::ServerBroadcastOverBudget;
